@@ -860,12 +860,12 @@ TRANSPARENT_PREFIXES = tuple("core::ptr::" + x for x in ("Unique", "NonNull")) +
 
 
 def utf8_valid(bs):
-    """z3 condition: the byte terms form well-formed UTF-8 (RFC 3629).  Exact for <= 3 bytes;
+    """z3 condition: the byte terms form well-formed UTF-8 (RFC 3629).  Exact for <= 5 bytes;
     longer strings are restricted to ASCII (stated bound)."""
     n = len(bs)
     if n == 0:
         return True
-    if n > 3:
+    if n > 5:
         return z3.And([z3.ULT(b, 0x80) for b in bs])
 
     def rng(b, lo, hi):
@@ -889,6 +889,13 @@ def utf8_valid(bs):
                                          z3.And(z3.Or(rng(b, 0xE1, 0xEC), rng(b, 0xEE, 0xEF)), rng(c1, 0x80, 0xBF)),
                                          z3.And(b == 0xED, rng(c1, 0x80, 0x9F))),
                                    rng(c2, 0x80, 0xBF), rest))
+        if i + 4 <= n:
+            c1, c2, c3 = bs[i + 1], bs[i + 2], bs[i + 3]
+            for rest in seqs(i + 4):
+                alts.append(z3.And(z3.Or(z3.And(b == 0xF0, rng(c1, 0x90, 0xBF)),
+                                         z3.And(rng(b, 0xF1, 0xF3), rng(c1, 0x80, 0xBF)),
+                                         z3.And(b == 0xF4, rng(c1, 0x80, 0x8F))),
+                                   rng(c2, 0x80, 0xBF), rng(c3, 0x80, 0xBF), rest))
         return alts
     return z3.Or(seqs(0))
 
